@@ -3,3 +3,4 @@ pub mod armor;
 pub mod canon;
 pub mod crypto;
 pub mod csf;
+pub mod frame;
